@@ -110,6 +110,8 @@ type Shared struct {
 	Pkgs      []*ssa.Package
 	InitAllow map[string]bool // package paths whose init functions are executed
 	Noop      map[string]bool // function names treated as no-ops returning zero values
+	SchedPkgs map[string]bool // packages whose synchronisation operations have replay points (nil: no restriction)
+	AtomicFns map[string]bool // functions executed without scheduling points / race tracking (treated as one atomic action)
 	Subst     map[string]*ssa.Function // function name -> harness replacement
 	UFs       map[string]bool // function names summarised as uninterpreted functions
 	RtErrType types.Type
@@ -129,7 +131,7 @@ type Shared struct {
 
 // Clone returns a copy with its own function-info cache.
 func (sh *Shared) Clone() *Shared {
-	return &Shared{Prog: sh.Prog, Pkgs: sh.Pkgs, InitAllow: sh.InitAllow, Noop: sh.Noop, Subst: sh.Subst, UFs: sh.UFs, RtErrType: sh.RtErrType,
+	return &Shared{Prog: sh.Prog, Pkgs: sh.Pkgs, InitAllow: sh.InitAllow, Noop: sh.Noop, AtomicFns: sh.AtomicFns, SchedPkgs: sh.SchedPkgs, Subst: sh.Subst, UFs: sh.UFs, RtErrType: sh.RtErrType,
 		AllocBound: sh.AllocBound, NowWindow: sh.NowWindow, Property: sh.Property, FreshMs: sh.FreshMs, VerifT: sh.VerifT, LoopBound: sh.LoopBound, InstrBudget: sh.InstrBudget, Known: sh.Known, Bounds: sh.Bounds, NowBase: sh.NowBase, Deadline: sh.Deadline}
 }
 
@@ -168,6 +170,12 @@ type Exec struct {
 	byteConst [256]*term.T
 	constCache map[*ssa.Const]Value
 	tryDepth  int
+	sched     *sched
+	noTouch   int
+	noSched   int
+	schedPoints  int
+	preemptsUsed int
+	raceChecks   int64
 	noPrune   bool
 	hooks     *Hooks
 	uniq      int
@@ -755,12 +763,18 @@ func (ex *Exec) load(p Value, t types.Type) Value {
 		if a == nil {
 			panic(ex.goPanicStr("invalid memory address or nil pointer dereference"))
 		}
+		if ex.sched != nil && ex.noTouch == 0 {
+			ex.touch(a, false)
+		}
 		v := *a
 		if t != nil {
 			v = ex.reinterpret(v, t)
 		}
 		return copyVal(v)
 	case SymPtr:
+		if ex.sched != nil && ex.noTouch == 0 {
+			ex.touchSlice(a.Base, false)
+		}
 		return ex.symLoad(a.Base, a.Idx)
 	}
 	panic(ex.unsupported(fmt.Sprintf("load through %T", p)))
@@ -787,9 +801,18 @@ func (ex *Exec) store(p Value, v Value) {
 		if a == nil {
 			panic(ex.goPanicStr("invalid memory address or nil pointer dereference"))
 		}
+		if ex.sched != nil && ex.noTouch == 0 {
+			ex.touch(a, true)
+		}
 		storeInPlace(a, v)
+		if ex.sched != nil && ex.noTouch == 0 {
+			ex.touch(a, true)
+		}
 		return
 	case SymPtr:
+		if ex.sched != nil && ex.noTouch == 0 {
+			ex.touchSlice(a.Base, true)
+		}
 		tb := ex.tb
 		nv := v.(*term.T)
 		for i := range a.Base {
@@ -967,6 +990,11 @@ func (ex *Exec) callFn(caller *frame, fn *ssa.Function, args []Value) Value {
 	}
 	if ex.sh.Noop[name] {
 		return ex.zeroResults(fn.Signature)
+	}
+	if ex.sched != nil && ex.sh.AtomicFns[name] {
+		ex.noSched++
+		ex.noTouch++
+		defer func() { ex.noSched--; ex.noTouch-- }()
 	}
 	if r, ok := ex.sh.Subst[name]; ok && r != fn {
 		return ex.callSSA(caller, r, args, nil)
@@ -1290,6 +1318,7 @@ func (ex *Exec) visit(fr *frame, instr ssa.Instruction) int {
 		x := ex.get(fr, in.X)
 		switch c := x.(type) {
 		case *Map:
+			ex.touchObj(c, false)
 			ex.set(fr, in, &Iter{m: c})
 		case Str:
 			ex.set(fr, in, &Iter{s: c, isStr: true})
@@ -1361,6 +1390,7 @@ func (ex *Exec) visit(fr *frame, instr ssa.Instruction) int {
 				ex.set(fr, in, ex.symLoad(c.B, idx))
 			}
 		case *Map:
+			ex.touchObj(c, false)
 			v, ok := ex.mapGet(c, ex.get(fr, in.Index))
 			if !ok {
 				v = ex.zero(in.X.Type().Underlying().(*types.Map).Elem())
@@ -1377,6 +1407,7 @@ func (ex *Exec) visit(fr *frame, instr ssa.Instruction) int {
 		}
 	case *ssa.MapUpdate:
 		m := ex.get(fr, in.Map).(*Map)
+		ex.touchObj(m, true)
 		ex.mapSet(m, copyVal(ex.get(fr, in.Key)), copyVal(ex.get(fr, in.Value)))
 	case *ssa.TypeAssert:
 		ex.set(fr, in, ex.typeAssert(fr, in))
